@@ -137,10 +137,10 @@ def search(budget):
         swav = os.path.join(tmp, "st.wav")
         with wave.open(swav, "wb") as f:
             f.setframerate(sr); f.setsampwidth(2); f.setnchannels(2); f.writeframes(sdata)
-        for u in (None, "0", "1", "mix"):
+        for u in (None, "0", "1", "mix", "-1", "-2"):
             n += 1
             kws = dict(min_dur=0.02, max_dur=5, max_silence=0.01, analysis_window=0.01, energy_threshold=50)
-            uc = None if u is None else (int(u) if u.isdigit() else u)
+            uc = None if u is None else (int(u) if u.lstrip("-").isdigit() else u)
             regs = list(split(sdata, sr=sr, sw=2, ch=2, use_channel=uc, **kws))
             exp = ["%d %s %s" % (i + 1, ref_fmt(r.start, "%S"), ref_fmt(r.end, "%S")) for i, r in enumerate(regs)]
             argv = [swav, "-n", "0.02", "-s", "0.01", "--printf", "{id} {start} {end}"] + ([] if u is None else ["-u", u])
@@ -148,6 +148,25 @@ def search(budget):
             if rc != 0 or out.strip().splitlines() != exp:
                 fail("main", "stereo wav with -u %s: printed %r; split(use_channel=%r) gives %r" % (u, out.strip().splitlines()[:4], uc, exp[:4]),
                      argv=argv)
+        # a failing final export of -O (target is a directory): detections are printed, status 0
+        n += 1
+        bad_target = os.path.join(tmp, "outdir.raw")
+        os.mkdir(bad_target)
+        try:
+            regs = list(split(data, sr=sr, sw=2, ch=1, min_dur=0.2, max_dur=5, max_silence=0.3, analysis_window=0.01, energy_threshold=50))
+            try:
+                rc, out, err = run_main([wavp, "-O", bad_target, "--printf", "{id}"])
+                what = "exit status %r, printed %r" % (rc, out.split())
+            except BaseException as e:  # noqa
+                rc, out, what = None, "", "main() raised %s" % type(e).__name__
+            if rc != 0 or out.split() != [str(i + 1) for i in range(len(regs))]:
+                fail("main", "-O to a raw target that cannot be written (export fails at the end): %s; expected the %d detections and "
+                     "status 0" % (what, len(regs)))
+        finally:
+            for f in os.listdir(tmp):
+                if f.startswith("outdir.raw") and os.path.isfile(os.path.join(tmp, f)):
+                    os.remove(os.path.join(tmp, f))
+            os.rmdir(bad_target)
         # a --printf template with non-ASCII text and escapes
         n += 1
         tpl = "[{id}] {start} \u2192 {end}\\td\u00e9tection"
